@@ -296,7 +296,14 @@ def step_string(buf, n, q):
             if hit:
                 i += 2
                 continue
-            return ABSTAIN          # \z, \u{..}, \<CR>, unknown escapes
+            if e == 13:
+                # line continuation with a CR / CRLF line end: one newline
+                if i + 2 >= n:
+                    return ABSTAIN  # chunk ends after the CR
+                out.append(10)
+                i += 3 if buf[i + 2] == 10 else 2
+                continue
+            return ABSTAIN          # \z, \u{..}, unknown escapes
         out.append(c)
         i += 1
     return ('more', 'string', n, out, ('string', q))
